@@ -264,6 +264,20 @@ func (w *rsWorld) ancestors(a [2]int) map[int]bool {
 			}
 		}
 	}
+	// an EC part (or child) whose EMBEDDED parent header names this chain's first part makes that parent a virtual
+	// member of the chain: what it declares above itself is above the chain too
+	chainFirst := d.kv["first"]
+	if chainFirst == "" || chainFirst == "0" {
+		chainFirst = strconv.Itoa(a[1])
+	}
+	for b, e := range w.defs {
+		if b[0] != a[0] || e.kv["p.first"] != chainFirst {
+			continue
+		}
+		if g, err := strconv.Atoi(e.kv["g.id"]); err == nil && g != 0 {
+			out[g] = true
+		}
+	}
 	// grandparents declared by any chain that embeds one of the parents
 	for _, e := range w.defs {
 		if p, err := strconv.Atoi(e.kv["p.id"]); err == nil && out[p] {
@@ -318,6 +332,14 @@ func (w *rsWorld) chainMembers(a [2]int) map[[2]int]bool {
 			out[b] = true
 		}
 		if f := d.kv["split"]; f != "" && f != "0" && e.kv["split"] == f {
+			out[b] = true
+		}
+		// the object whose embedded parent header links the chain (by its first id) to what is above it
+		cf := d.kv["first"]
+		if cf == "" || cf == "0" {
+			cf = strconv.Itoa(a[1])
+		}
+		if e.kv["p.first"] == cf {
 			out[b] = true
 		}
 	}
